@@ -22,6 +22,7 @@ fn main() {
         "codec" => codec::main_codec(&args[2..]),
         "gen" => gen::main_gen(&args[2..]),
         "attrs" => codec::main_attrs(&args[2..]),
+        "xor" => codec::main_xor(&args[2..]),
         "compr" => {
             use std::io::Write;
             let mut out = std::io::BufWriter::new(std::fs::File::create(&args[2]).expect("out"));
